@@ -50,6 +50,14 @@ Example C20_example :
   snd (cstep w1 (CRead 1)) = Some 7 /\ pendingq w1 = [1] /\ snd (cstep (crun w1 [CDeliver]) (CRead 1)) = Some 8.
 Proof. vm_compute. repeat split; reflexivity. Qed.
 
+Theorem C20_membership_is_the_servers_answer : forall l c k,
+  let w := crun (cinit c) l in let w' := fst (cstep w (CHas k)) in
+  snd (cstep w (CHas k)) = Some (if Nat.eqb (server_val w k) 0 then 0 else 1) /\ kv w' = kv w /\ cache w' = cache w /\ pendingq w' = pendingq w.
+Proof. exact membership_is_current. Qed.
+
+Theorem C20_not_a_member_right_after_delete : forall w k, snd (cstep (fst (cstep w (CWrite k 0))) (CHas k)) = Some 0.
+Proof. exact membership_false_right_after_delete. Qed.
+
 Print Assumptions C20_read_your_write.
 Print Assumptions C20_delete_then_absent.
 Print Assumptions C20_keys_are_unique_always.
@@ -58,3 +66,5 @@ Print Assumptions C20_written_values_survive_restart.
 Print Assumptions C20_lists_keep_append_order.
 Print Assumptions C20_cached_view_is_current.
 Print Assumptions C20_cache_within_capacity.
+Print Assumptions C20_membership_is_the_servers_answer.
+Print Assumptions C20_not_a_member_right_after_delete.
